@@ -4,6 +4,19 @@ VERIF = os.path.dirname(os.path.dirname(os.path.abspath(__file__)))
 ALL = ["C%02d" % i for i in range(1, 21)]
 
 CLAIMS = {
+ "C08": dict(
+    text="MathComp theorems (any number of segments, any sizes, any commutative ring): the segment loop of _SolveIVP.backward over "
+         "linear adjoint flows computes lam_i = g_i + P_i lam_{i+1}, q_i = q_{i+1} + Q_i lam_{i+1}; the result is additive in the "
+         "cotangents and a cotangent at one output time gives the composed pull-back - re-seeding segment by segment equals one "
+         "independent adjoint solve per output time; the symbolic partial derivatives used for the augmented dynamics are the "
+         "derivative. The executable model (augmented dynamics with the source's signs, re-seeding, time-gradient terms, assembly; "
+         "the nested solves as an oracle tape recorded through a callable step solver) runs at binary64 against the implementation.",
+    note="Partial: the continuous adjoint-sensitivity theorem (Pontryagin) is cited, not formalised; agreement with closed-form "
+         "sensitivities (matrix exponential, logistic, time-dependent decay) for every method, direction, function kind, tuple "
+         "states, requires-grad subsets, first and second order is an implementation oracle within integrator accuracy. Trusted: Coq "
+         "kernel + vm_compute + PrimFloat; the step solvers (C07); autograd's vector-Jacobian products.",
+    technique="Coq/MathComp proof (superposition of the adjoint segment loop) + oracle-tape model correspondence of the backward pass",
+    ref="DESIGN.md section 7, C08"),
  "C06": dict(
     text="MathComp theorems (any size, any commutative ring, any derivation D, A and M symmetric, one non-degenerate kept column of a "
          "partial spectrum with M): Hellmann-Feynman de = x^T (dA - e dM) x; the tangent of the vector solves the shifted system and its "
